@@ -6,7 +6,7 @@ unsafe impl Sync for NoSend {}
 struct Wrapped<T, M> { items: std::vec::IntoIter<T>, _m: M }
 impl<T, M> Iterator for Wrapped<T, M> { type Item = T; fn next(&mut self) -> Option<T> { self.items.next() } }
 fn main() {
-    let col: [u64; 2] = [7u64, 7u64];
+    let col: Vec<u64> = vec![7u64, 7u64, 7u64];
     let it = col.con_iter();
     std::thread::scope(|s| { s.spawn(move || { let _ = it.next(); }); });
 }
